@@ -348,6 +348,17 @@ func runC16(p *core.Prog, r *core.Report) {
 			r.Check(t2[pr] == want[pr], "C16.R2", "toGRPCError/"+pr, fmt.Sprintf("tier 2 maps %s to code %s", pr, want[pr]), "maps to "+t2[pr], p.Pos(p.Func(pkgSvc, "toGRPCError").Pos()))
 			r.Check(t1[pr] == want[pr], "C16.R2", "toConnectError/"+pr, fmt.Sprintf("tier 1 maps %s to code %s", pr, want[pr]), "maps to "+t1[pr], p.Pos(p.Func(pkgSvc, "toConnectError").Pos()))
 		}
+		// the classifiers are applied to what the handlers return
+		for _, h := range []struct{ fn, cls string }{{"Tier2Service.ProcessRange", "toGRPCError"}, {"Tier1Service.Blocks", "toConnectError"}} {
+			hf := p.Func(pkgSvc, h.fn)
+			n := 0
+			for _, f := range core.WithClosures(hf) {
+				n += len(core.FindInstrs(f, core.IsCallTo(p.FuncObj(pkgSvc, h.cls))))
+			}
+			r.Check(n > 0, "C16.R2", h.fn+"/classified", h.fn+" passes its error through "+h.cls, "classifier not called", p.Pos(hf.Pos()))
+		}
+	})
+	r.Guard("C16.R2", "toConnectError/grpc-invalid-argument", "tier-2 invalid argument stays one", func() {
 		// tier-1 keeps a gRPC InvalidArgument received from tier 2 as invalid argument
 		fn := p.Func(pkgSvc, "toConnectError")
 		fd, pk := p.FuncDecl(pkgSvc, "toConnectError")
@@ -371,15 +382,6 @@ func runC16(p *core.Prog, r *core.Report) {
 			}
 		}
 		r.Check(okPass, "C16.R2", "toConnectError/grpc-invalid-argument", "an InvalidArgument status coming back from a tier-2 job stays an invalid-argument error for the client", "gRPC InvalidArgument not mapped to connect InvalidArgument", p.Pos(fn.Pos()))
-		// the classifiers are applied to what the handlers return
-		for _, h := range []struct{ fn, cls string }{{"Tier2Service.ProcessRange", "toGRPCError"}, {"Tier1Service.Blocks", "toConnectError"}} {
-			hf := p.Func(pkgSvc, h.fn)
-			n := 0
-			for _, f := range core.WithClosures(hf) {
-				n += len(core.FindInstrs(f, core.IsCallTo(p.FuncObj(pkgSvc, h.cls))))
-			}
-			r.Check(n > 0, "C16.R2", h.fn+"/classified", h.fn+" passes its error through "+h.cls, "classifier not called", p.Pos(hf.Pos()))
-		}
 	})
 	r.Guard("C16.R2", "RemoteWorker", "retry classification", func() {
 		wf := p.Func(pkgWork, "RemoteWorker.work")
